@@ -218,7 +218,7 @@ def run(ctx):
                     ok = all(f"{tr}(method(conjure_object::private::DoubleOps::{m}))" in txt for tr, m in (("PartialEq", "eq"), ("Ord", "cmp"), ("Hash", "hash")))
                     ctx.check(ok, "R14.5", where, f"{fn['name']}|field-template|routes", f"{fn['name']}: the educe field template must route PartialEq/Ord/Hash to DoubleOps::eq/cmp/hash; template: {txt[:200]}",
                               instance=f"{fn['name']}: field educe -> DoubleOps::eq/cmp/hash")
-                    under = any("is_double" in cnd and cnd.startswith("if") for cnd in q["conds"])
+                    under = any("is_double" in cnd and cnd.startswith("if") for cnd in q["conds"]) or tguard.positive_guard(q["conds"], "is_double", allow_others=True) is True
                     if not under and tguard.positive_guard(q["conds"], "is_double", allow_others=True) is None:
                         # early-return style helper (`if !is_double(ty) { return quote!() }`): not a syntactic condition of the
                         # template; the generated instances are decided by R14.6
@@ -234,7 +234,8 @@ def run(ctx):
                         if "has_double" in cnd or "is_double" in cnd:
                             return True
                         return any(("has_double" in (fn["lets"].get(v) or "") or "is_double" in (fn["lets"].get(v) or "")) for v in _re.findall(r"[A-Za-z_]\w*", cnd))
-                    under = any(mentions(cnd) and cnd.startswith("if") and not cnd.replace(" ", "").startswith("if!") for cnd in q["conds"])
+                    under = any(mentions(cnd) and cnd.startswith("if") and not cnd.replace(" ", "").startswith("if!") for cnd in q["conds"]) \
+                        or any(mentions(cnd) and cnd.replace(" ", "").startswith("elseofif!") for cnd in q["conds"])      # after `if !has_double { return .. }`
                     if not under and not q["conds"]:
                         ctx.note(f"R14.5 {fn['name']}: type-level educe emitted under no syntactic condition (decision taken elsewhere); instance decided by R14.6")
                         continue
